@@ -57,7 +57,8 @@ Definition zpair (p : nat * nat) : Z * Z := (Z.of_nat (fst p), Z.of_nat (snd p))
 Definition cost_fns_of (N : Num) (cm : Cost.cost_model N) : cost_fns N :=
   Build_cost_fns
     (fun e1 e2 p n => Cost.access_cost N cm (zpair (e1, e2)) p n)
-    (fun pair e p n => Cost.edge_cost N cm (option_map zpair pair) (Z.of_nat e) p n).
+    (fun pair e p n => Cost.edge_cost N cm (option_map zpair pair) (Z.of_nat e) p n)
+    (Cost.enforce_strictly_positive N).
 
 (* SearchApp::build_search_instance: traversal model, access model, state model extended by the models' features
    and then the query's, cost model over the extended state model *)
@@ -78,48 +79,44 @@ Definition build (N : Num) (c : case_t N) : res (instance N * Cost.cost_model N)
 
 Inductive outcome (A : Type) : Type :=
 | OBuildErr (cls : string)
-| ORoutes (rs : list (string * res (list (etrav A)))) (summary : res (list (string * A))).
-Arguments OBuildErr {A} cls. Arguments ORoutes {A} rs summary.
+| ORoutes (rs : list (string * res (list (etrav A)))) (totals : list (list A)) (summary : res (list (string * A))).
+    (* totals: EdgeTraversal::total_cost() of every edge of every route that exists, in the order of [rs] *)
+Arguments OBuildErr {A} cls. Arguments ORoutes {A} rs totals summary.
 
-(* construct_route_output also renders the cost model: CostModel::serialize_cost_info does `json![net_rate]`, and
-   serde_json cannot write the tuple keys of an EdgeEdgeLookup ("key must be a string"): the macro unwraps, the
-   plugin panics and no summary is produced for such a configuration (current behaviour, reported as a finding) *)
-Fixpoint has_pair_rate {A} (r : Cost.nrate A) : bool :=
-  match r with
-  | Cost.NEdgeEdge _ => true
-  | Cost.NCombined l => existsb has_pair_rate l
-  | _ => false
-  end.
 Definition summary_of (N : Num) (c : case_t N) (inst : instance N) (route : list (etrav N)) : res (list (string * N)) :=
   if negb (c_summary c) then Err "not rendered"
   else match route with
        | [] => Err "EmptyRoute"
-       | _ => if existsb (fun nr => has_pair_rate (snd nr)) (cc_n (c_cost c)) then Panic "serialize_cost_info"
-              else traversal_summary N inst route
+       | _ => traversal_summary N inst route
        end.
 
 Definition run (N : Num) (c : case_t N) : outcome N :=
   match build N c with
   | Ok (inst, _) =>
       let init := initial_state (i_sm inst) in
+      let mk rs s :=
+        ORoutes rs (map (fun nr => match snd nr with
+                                   | Ok l => map (total_cost N (i_cost inst)) l
+                                   | _ => []
+                                   end) rs) s in
       match c_op c with
       | OForward es =>
           let r := run_forward N inst None init es in
-          ORoutes [("route", r)] (match r with Ok l => summary_of N c inst l | _ => Err "no route" end)
-      | OReverse es => ORoutes [("rroute", run_reverse N inst None init es)] (Err "not rendered")
+          mk [("route", r)] (match r with Ok l => summary_of N c inst l | _ => Err "no route" end)
+      | OReverse es => mk [("rroute", run_reverse N inst None init es)] (Err "not rendered")
       | OVia f rv =>
           let rf := run_forward N inst None init f in
           let rr := run_reverse N inst None init rv in
           match rf, rr with
           | Ok lf, Ok lr =>
               let v := reorient_reverse_route N inst lf lr in
-              ORoutes [("fwd", rf); ("rev", rr); ("via", v)]
-                      (match v with Ok lv => summary_of N c inst (lf ++ lv) | _ => Err "no route" end)
-          | _, _ => ORoutes [("fwd", rf); ("rev", rr)] (Err "no route")
+              mk [("fwd", rf); ("rev", rr); ("via", v)]
+                 (match v with Ok lv => summary_of N c inst (lf ++ lv) | _ => Err "no route" end)
+          | _, _ => mk [("fwd", rf); ("rev", rr)] (Err "no route")
           end
       | OMulti ess =>
-          ORoutes (map (fun kes => (("r" ++ show_nat (fst kes))%string, run_forward N inst None init (snd kes)))
-                       (combine (seq 0 (List.length ess)) ess)) (Err "not rendered")
+          mk (map (fun kes => (("r" ++ show_nat (fst kes))%string, run_forward N inst None init (snd kes)))
+                  (combine (seq 0 (List.length ess)) ess)) (Err "not rendered")
       end
   | Err cls => OBuildErr cls
   | Panic _ => OBuildErr "Panic"
@@ -148,7 +145,9 @@ Section Show.
   Definition show_outcome (o : outcome A) : string :=
     match o with
     | OBuildErr cls => "BuildErr " ++ cls
-    | ORoutes rs s => join " " (map (fun nr => fst nr ++ "=" ++ show_route (snd nr)) rs) ++ " sum=" ++ show_summary s
+    | ORoutes rs ts s =>
+        join " " (map (fun nrt => fst (fst nrt) ++ "=" ++ show_route (snd (fst nrt)) ++ "/" ++ show_list sh (snd nrt))
+                      (combine rs ts)) ++ " sum=" ++ show_summary s
     end.
 End Show.
 
@@ -182,117 +181,217 @@ Definition cost_sensitivity (cm : Cost.cost_model Q) : Q :=
 
 Definition rget {A} (r : res A) (d : A) : A := match r with Ok a => a | _ => d end.
 
-(* accumulators of the closed forms along a route *)
+(* Arithmetic of the judge.  Every input number is a binary64 value, i.e. a dyadic rational.  To keep the rationals
+   small (Coq's Q does not reduce, and a 53-bit denominator per edge makes a 30-edge sum cost seconds) the judge
+   works on the grid of 2^-128:
+     * the unit constants Kd, Kt, Kdelay of Model/TraversalSpec.v are rounded DOWN to the grid once per case
+       (they are >= 1e-8, so the relative error is < 2^-100),
+     * the running sums of len, len/speed and raw delay are kept on the grid; len and delay are dyadic and usually
+       exact, each quotient len/speed is rounded down (error < 2^-128 per term).
+   All these errors are more than twenty orders of magnitude below the comparison bands. *)
+Definition grid_bits : Z := 128.
+Definition grid : positive := (2 ^ 128)%positive.
+Fixpoint pow2_log (p : positive) : option Z :=
+  match p with
+  | xH => Some 0%Z
+  | xO q => match pow2_log q with Some k => Some (Z.succ k) | None => None end
+  | xI _ => None
+  end.
+(* floor (q * 2^128) *)
+Definition fix128 (q : Q) : Z :=
+  match pow2_log (Qden q) with
+  | Some k => if (k <=? grid_bits)%Z then Z.shiftl (Qnum q) (grid_bits - k) else Z.shiftr (Qnum q) (k - grid_bits)
+  | None => (Qnum q * Zpos grid / Zpos (Qden q))%Z
+  end.
+(* floor (a / b * 2^128) for dyadic a, b with b > 0 (0 otherwise: such a route is an error anyway) *)
+Definition fix128_div (a b : Q) : Z :=
+  match pow2_log (Qden a), pow2_log (Qden b) with
+  | Some ka, Some kb =>
+      if (Qnum b <=? 0)%Z then 0%Z
+      else let s := (grid_bits + kb - ka)%Z in
+           if (0 <=? s)%Z then (Z.shiftl (Qnum a) s / Qnum b)%Z else (Qnum a / Z.shiftl (Qnum b) (- s))%Z
+  | _, _ => fix128 (a / b)
+  end.
+Definition unfix (z : Z) : Q := Qmake z grid.
+Definition dy (q : Q) : Q := unfix (fix128 q).
+
+(* The same rationals with a cheaper representation: the sum of two dyadic numbers is formed on the larger of the
+   two power-of-two denominators instead of their product ([Qplus] multiplies denominators, so the sum of a dozen
+   per-feature costs would carry a denominator of thousands of bits).  [dyadd a b == a + b] always. *)
+Definition dyadd (a b : Q) : Q :=
+  match pow2_log (Qden a), pow2_log (Qden b) with
+  | Some ka, Some kb =>
+      if (ka <=? kb)%Z then Qmake (Z.shiftl (Qnum a) (kb - ka) + Qnum b) (Qden b)
+      else Qmake (Qnum a + Z.shiftl (Qnum b) (ka - kb)) (Qden a)
+  | _, _ => Qplus a b
+  end.
+Definition QD : Num := {|
+  T := Q; zero := 0; one := 1;
+  add := dyadd; sub := fun a b => dyadd a (Qopp b); mul := Qmult; div := Qdiv; opp := Qopp;
+  ltb := Qltb; leb := Qle_bool; eqb := Qeq_bool;
+  of_Z := inject_Z; lit := Qlit |}.
+
 Record acc : Type :=
-  { a_len : Q; a_los : Q; a_delay : Q; a_other : option nat; a_prev : list float }.
+  { a_len : Z; a_los : Z; a_delay : Z; a_other : option nat; a_prev : list float }.
+
+(* fixed-point helpers: integers are multiples of 2^-128 *)
+Definition mulF (a b : Z) : Z := Z.shiftr (a * b) grid_bits.          (* floor of the product *)
+Definition ffix (f : float) : Z := fix128 (qf f).                       (* exact for |f| >= 2^-75 or f = 0 *)
+(* |obs - expd| <= scale / den, with 8 grid units (2^-125) of slack for the floors taken on the way *)
+Definition closeZ (obs expd scale den : Z) : bool := (Z.abs (obs - expd) <=? scale / den + 8)%Z.
+
+(* per-case constants *)
+Record consts : Type :=
+  { k_n : nat; k_id : option nat; k_it : option nat; k_d0 : Z; k_t0 : Z;
+    k_Kd : Z; k_Kt : Z; k_Kdelay : Z; k_Kd_si : Q; k_Kt_si : Q; k_Kdelay_si : Q;
+    k_sens : Z; k_zeros : list Q; k_speed_model : bool }.
+
+Definition slot_d (sm : smodel Q) : option (nat * dist_unit) :=
+  match get_index sm distance_name, lookup_feature sm distance_name with
+  | Some i, Some (FDistance u _) => Some (i, u) | _, _ => None end.
+Definition slot_t (sm : smodel Q) : option (nat * time_unit) :=
+  match get_index sm time_name, lookup_feature sm time_name with
+  | Some i, Some (FTime u _) => Some (i, u) | _, _ => None end.
+
+Definition consts_of (inst : instance Q) (cm : Cost.cost_model Q) : consts :=
+  let sm := i_sm inst in
+  let init := initial_state sm in
+  let fu_d := match slot_d sm with Some (_, u) => u | None => Meters end in
+  let fu_t := match slot_t sm with Some (_, u) => u | None => Seconds end in
+  let id := match slot_d sm with Some (i, _) => Some i | None => None end in
+  let it := match slot_t sm with Some (i, _) => Some i | None => None end in
+  {| k_n := List.length sm; k_id := id; k_it := it;
+     k_d0 := fix128 (match id with Some i => nth i init 0 | None => 0 end);
+     k_t0 := fix128 (match it with Some i => nth i init 0 | None => 0 end);
+     k_Kd := fix128 (Kd inst fu_d); k_Kt := fix128 (Kt inst fu_t); k_Kdelay := fix128 (Kdelay inst fu_t);
+     k_Kd_si := Qred (Kd_si fu_d); k_Kt_si := Qred (Kt_si inst fu_t); k_Kdelay_si := Qred (Kdelay_si inst fu_t);
+     k_sens := fix128 (cost_sensitivity cm) + 1; k_zeros := repeat 0 (List.length sm);
+     k_speed_model := match i_tm inst with TMSpeed _ => true | _ => false end |}.
+
+(* z (fixed point) times a small exact rational, floor *)
+Definition mulQ (z : Z) (q : Q) : Z := (z * Qnum q / Zpos (Qden q))%Z.
 
 Section Judge.
   Variable inst : instance Q.
   Variable cm : Cost.cost_model Q.
-  Let sm := i_sm inst.
-  Let n := List.length sm.
+  Variable K : consts.
 
-  Definition slot_d : option (nat * dist_unit) :=
-    match get_index sm distance_name, lookup_feature sm distance_name with
-    | Some i, Some (FDistance u _) => Some (i, u) | _, _ => None end.
-  Definition slot_t : option (nat * time_unit) :=
-    match get_index sm time_name, lookup_feature sm time_name with
-    | Some i, Some (FTime u _) => Some (i, u) | _, _ => None end.
-  Definition fu_d : dist_unit := match slot_d with Some (_, u) => u | None => Meters end.
-  Definition fu_t : time_unit := match slot_t with Some (_, u) => u | None => Seconds end.
-  Definition init : list Q := initial_state sm.
-  Definition d0 : Q := match slot_d with Some (i, _) => nth i init 0 | None => 0 end.
-  Definition t0 : Q := match slot_t with Some (i, _) => nth i init 0 | None => 0 end.
-
-  Definition zeros : list Q := repeat 0 n.
   Definition put (l : list Q) (s : option nat) (v : Q) : list Q :=
     match s with Some i => set_nth l i v | None => l end.
-  Definition id_opt : option nat := match slot_d with Some (i, _) => Some i | None => None end.
-  Definition it_opt : option nat := match slot_t with Some (i, _) => Some i | None => None end.
-
   Definition is_slot (j : nat) (o : option nat) : bool :=
     match o with Some i => Nat.eqb i j | None => false end.
-  Definition abs_sum (l : list float) : Q := fold_left (fun a f => a + Qabs (qf f)) l 0.
+  Definition abs_sum (l : list float) : Z := fold_left (fun a f => a + Z.abs (ffix f))%Z l 0%Z.
 
   (* one edge of a route: expected values from the accumulators, compared with the observed EdgeTraversal *)
-  Definition judge_edge (d : direction) (k : nat) (a : acc) (e : nat) (o : etrav float) : acc + string :=
+  Definition judge_edge (d : direction) (k : nat) (a : acc) (e : nat) (o : etrav float) (tot : float) : acc + string :=
     let pair := pair_of d e (a_other a) in
-    let sl := a_len a + len inst e in
-    let slos := a_los a + (match i_tm inst with TMSpeed _ => len inst e / speed inst e | _ => 0 end) in
-    let sdel := a_delay a + raw_pair_delay inst pair in
-    let a' := Build_acc sl slos sdel (Some e) (et_state o) in
+    let ql := fix128 (len inst e) in
+    let qlos := if k_speed_model K then fix128_div (len inst e) (speed inst e) else 0%Z in
+    let qdel := fix128 (raw_pair_delay inst pair) in
+    let zl := (a_len a + ql)%Z in
+    let zlos := (a_los a + qlos)%Z in
+    let zdel := (a_delay a + qdel)%Z in
+    let a' := Build_acc zl zlos zdel (Some e) (et_state o) in
     let st := et_state o in
     let tag s := inr ("REJECT(edge " ++ show_nat k ++ ": " ++ s ++ ")")%string in
     if negb (Nat.eqb (et_edge o) e) then tag "edge id"
-    else if negb (Nat.eqb (List.length st) n) then tag "state length"
-    else if negb (forallb finite st && finite (et_access o) && finite (et_trav o)) then tag "non-finite value"
+    else if negb (Nat.eqb (List.length st) (k_n K)) then tag "state length"
+    else if negb (forallb finite st && finite (et_access o) && finite (et_trav o) && finite tot) then tag "non-finite value"
     else
-      (* distance: declared initial value + (sum of lengths) in the feature's unit *)
-      let okd := match slot_d with
+      (* distance: declared initial value + (sum of lengths) in the feature's unit; 1e-9 relative; exact SI factor
+         within 0.5 %; never decreasing (compared as floats) *)
+      let okd := match k_id K with
                  | None => true
-                 | Some (i, _) =>
-                     let obs := qf (nth i st PrimFloat.zero) in
-                     close eps_state obs (d0 + sl * Kd inst fu_d) (Qabs obs + Qabs d0)
-                     && close eps_si (obs - d0) (sl * Kd_si fu_d) (Qabs (sl * Kd_si fu_d))
-                     && Qle_bool (qf (nth i (a_prev a) PrimFloat.zero)) obs
+                 | Some i =>
+                     let f := nth i st PrimFloat.zero in
+                     let obs := ffix f in
+                     closeZ obs (k_d0 K + mulF zl (k_Kd K)) (Z.abs obs + Z.abs (k_d0 K)) 1000000000
+                     && closeZ (obs - k_d0 K) (mulQ zl (k_Kd_si K)) (5 * Z.abs (obs - k_d0 K)) 1000
+                     && PrimFloat.leb (nth i (a_prev a) PrimFloat.zero) f
                  end in
       (* time: declared initial value + sum len/speed + sum of the delays of the turns taken *)
-      let okt := match slot_t with
+      let okt := match k_it K with
                  | None => true
-                 | Some (i, _) =>
-                     let obs := qf (nth i st PrimFloat.zero) in
-                     let si := slos * Kt_si inst fu_t + sdel * Kdelay_si inst fu_t in
-                     close eps_state obs (t0 + slos * Kt inst fu_t + sdel * Kdelay inst fu_t) (Qabs obs + Qabs t0)
-                     && close eps_si (obs - t0) si (Qabs si)
-                     && Qle_bool (qf (nth i (a_prev a) PrimFloat.zero)) obs
+                 | Some i =>
+                     let f := nth i st PrimFloat.zero in
+                     let obs := ffix f in
+                     closeZ obs (k_t0 K + mulF zlos (k_Kt K) + mulF zdel (k_Kdelay K)) (Z.abs obs + Z.abs (k_t0 K)) 1000000000
+                     && closeZ (obs - k_t0 K) (mulQ zlos (k_Kt_si K) + mulQ zdel (k_Kdelay_si K)) (5 * Z.abs (obs - k_t0 K)) 1000
+                     && PrimFloat.leb (nth i (a_prev a) PrimFloat.zero) f
                  end in
       (* every other slot is untouched (bit for bit) *)
-      let oko := forallb (fun j => is_slot j id_opt || is_slot j it_opt ||
+      let oko := forallb (fun j => is_slot j (k_id K) || is_slot j (k_it K) ||
                                    String.eqb (show_float (nth j st PrimFloat.zero)) (show_float (nth j (a_prev a) PrimFloat.zero)))
-                         (seq 0 n) in
-      (* costs: the cost model (rationals) applied to this edge's increments *)
-      let dinc := dist_inc inst fu_d e in
-      let tacc := delay_inc inst fu_t pair in
-      let tinc := tacc + time_inc inst fu_t e in
+                         (seq 0 (k_n K)) in
+      (* costs: the cost model (Model/Cost.v in exact dyadic rationals) applied to this edge's increments;
+         band: 1e-8 relative + 1e-13 * (cost sensitivity) * |state| for the rounding of the float state difference *)
+      let dinc := unfix (mulF ql (k_Kd K)) in
+      let zacc := mulF qdel (k_Kdelay K) in
+      let tacc := unfix zacc in
+      let tinc := unfix (zacc + mulF qlos (k_Kt K)) in
       let zp := option_map zpair pair in
       let x_access := match zp with
-                      | None => 0
-                      | Some pe => 0 + rget (Cost.access_cost QN cm pe zeros (put zeros it_opt tacc)) 0
+                      | None => 0%Z
+                      | Some pe => fix128 (rget (Cost.access_cost QD cm pe (k_zeros K) (put (k_zeros K) (k_it K) tacc)) 0)
                       end in
-      let x_total := rget (Cost.edge_cost QN cm zp (Z.of_nat e) zeros (put (put zeros it_opt tinc) id_opt dinc)) 0 in
-      let scale := eps_cost * (Qabs x_total + Qabs x_access) + eps_delta * cost_sensitivity cm * abs_sum st in
-      let okc := Qle_bool (Qabs (qf (et_access o) - x_access)) scale
-                 && Qle_bool (Qabs (qf (et_trav o) - (x_total - x_access))) scale in
+      let x_total := fix128 (rget (Cost.edge_cost QD cm zp (Z.of_nat e) (k_zeros K)
+                                                  (put (put (k_zeros K) (k_it K) tinc) (k_id K) dinc)) 0) in
+      let scale := ((Z.abs x_total + Z.abs x_access) / 100000000
+                    + mulF (k_sens K) (abs_sum st) / 10000000000000 + 8)%Z in
+      let okc := (Z.abs (ffix (et_access o) - x_access) <=? scale)%Z
+                 && (Z.abs (ffix (et_trav o) - (x_total - x_access)) <=? scale)%Z
+                 && (Z.abs (ffix tot - x_total) <=? scale)%Z in
       if negb okd then tag "distance is not initial + sum of lengths, or decreases"
       else if negb okt then tag "time is not initial + sum length/speed + sum turn delays, or decreases"
       else if negb oko then tag "an unrelated state slot changed"
       else if negb okc then tag "cost is not the weighted, rated change of state on the edge"
       else inl a'.
 
-  Fixpoint judge_walk (d : direction) (k : nat) (a : acc) (es : list nat) (os : list (etrav float)) : acc + string :=
-    match es, os with
-    | [], [] => inl a
-    | e :: er, o :: or =>
-        match judge_edge d k a e o with
-        | inl a' => judge_walk d (S k) a' er or
+  Fixpoint judge_walk (d : direction) (k : nat) (a : acc) (es : list nat) (os : list (etrav float)) (ts : list float)
+    : acc + string :=
+    match es, os, ts with
+    | [], [], [] => inl a
+    | e :: er, o :: or, t :: tr =>
+        match judge_edge d k a e o t with
+        | inl a' => judge_walk d (S k) a' er or tr
         | inr s => inr s
         end
-    | _, _ => inr "REJECT(route length)"%string
+    | _, _, _ => inr "REJECT(route length)"%string
     end.
 End Judge.
 
-(* expected status of a route from the model in rationals; the values are judged against the closed forms *)
-Definition status_of {A} (r : res (list (etrav A))) : option string :=
-  match r with Ok _ => None | Err c => Some ("Err " ++ c)%string | Panic _ => Some "Panic"%string | OutOfFuel => Some "Hang"%string end.
+(* Does the property expect a route at all?  Whether a traversal step fails never depends on the NUMBERS in the
+   state vector (they only flow into arithmetic; the failures are missing edges / vertices / table rows / features,
+   non-positive speed or length, a state vector of the wrong length), so the status of a walk is decided by running
+   the model in rationals one step at a time from the declared initial state (small numbers), not along the
+   accumulated state.  The accumulated values are judged against the closed forms. *)
+Fixpoint walk_status (step : nat -> option nat -> list Q -> res (etrav Q)) (other : option nat) (st0 : list Q)
+         (es : list nat) : option string :=
+  match es with
+  | [] => None
+  | e :: r =>
+      match step e other st0 with
+      | Ok _ => walk_status step (Some e) st0 r
+      | Err c => Some ("Err " ++ c)%string
+      | Panic _ => Some "Panic"%string
+      | OutOfFuel => Some "Hang"%string
+      end
+  end.
+(* the cost functions cannot fail on a state vector of the right length (one slot per feature), and the walk below
+   always starts from the declared initial state, so the status is computed with constant cost functions *)
+Definition no_cost : cost_fns Q := Build_cost_fns (fun _ _ _ _ => Ok 1) (fun _ _ _ _ => Ok 1) (fun x => x).
+Definition step_of (inst : instance Q) (d : direction) :=
+  let i := Build_instance (i_graph inst) (i_sm inst) (i_tm inst) (i_am inst) no_cost in
+  match d with Forward => forward_traversal QN i | Reverse => reverse_traversal QN i end.
 
-Definition judge_route (inst : instance Q) (cm : Cost.cost_model Q) (d : direction) (a : acc) (es : list nat)
-           (spec : res (list (etrav Q))) (obs : res (list (etrav float))) : (acc * string) + string :=
-  match status_of spec with
-  | Some s => inr s                         (* no route: the implementation must report the same failure *)
+Definition judge_route (inst : instance Q) (cm : Cost.cost_model Q) (K : consts) (d : direction) (a : acc) (es : list nat)
+           (obs : res (list (etrav float)) * list float) : (acc * string) + string :=
+  match walk_status (step_of inst d) (a_other a) (initial_state (i_sm inst)) es with
+  | Some s => inr (s ++ "/[]")%string       (* no route: the implementation must report the same failure *)
   | None =>
-      match obs with
-      | Ok os => match judge_walk inst cm d 0 a es os with
-                 | inl a' => inl (a', show_route show_float obs)
+      match fst obs with
+      | Ok os => match judge_walk inst cm K d 0 a es os (snd obs) with
+                 | inl a' => inl (a', (show_route show_float (fst obs) ++ "/" ++ show_list show_float (snd obs))%string)
                  | inr s => inr s
                  end
       | _ => inr "REJECT(implementation failed where the property expects a route)"%string
@@ -312,8 +411,12 @@ Definition judge_summary (c : case_t Q) (inst : instance Q) (route : list (etrav
   if String.eqb (show_summary show_float expected) (show_summary show_float s)
   then show_summary show_float s else "REJECT(summary is not the state after the last edge)"%string.
 
-Definition obs_route (rs : list (string * res (list (etrav float)))) (name : string) : res (list (etrav float)) :=
-  match find (fun nr => String.eqb (fst nr) name) rs with Some nr => snd nr | None => Err "missing"%string end.
+Definition obs_route (rts : list ((string * res (list (etrav float))) * list float)) (name : string)
+  : res (list (etrav float)) * list float :=
+  match find (fun nrt => String.eqb (fst (fst nrt)) name) rts with
+  | Some nrt => (snd (fst nrt), snd nrt)
+  | None => (Err "missing"%string, [])
+  end.
 
 Definition judge (c : case_t Q) (impl_init : list float) (impl : outcome float) : string :=
   match build QN c with
@@ -323,49 +426,48 @@ Definition judge (c : case_t Q) (impl_init : list float) (impl : outcome float) 
   | Ok (inst, cm) =>
       match impl with
       | OBuildErr _ => "REJECT(implementation failed to build a valid configuration)"%string
-      | ORoutes rs s =>
+      | ORoutes rs0 ts0 s =>
+          let rs := combine rs0 ts0 in
           let init := initial_state (i_sm inst) in
+          let K := consts_of inst cm in
           (* the declared initial state, bit for bit *)
           if negb (Nat.eqb (List.length init) (List.length impl_init)
                    && forallb (fun p => Qeq_bool (fst p) (qf (snd p)) && finite (snd p)) (combine init impl_init))
           then "REJECT(initial state is not the declared one)"%string
           else
-          let a0 := Build_acc 0 0 0 None impl_init in
+          let a0 := Build_acc 0%Z 0%Z 0%Z None impl_init in
           let piece name r := (name ++ "=" ++ match r with inl (_, s) => s | inr s => s end)%string in
           match c_op c with
           | OForward es =>
-              let r := judge_route inst cm Forward a0 es (run_forward QN inst None init es) (obs_route rs "route") in
+              let r := judge_route inst cm K Forward a0 es (obs_route rs "route") in
               (piece "route" r ++ " sum=" ++
                match r with
-               | inl _ => judge_summary c inst (rget (obs_route rs "route") []) s
+               | inl _ => judge_summary c inst (rget (fst (obs_route rs "route")) []) s
                | inr _ => "None"
                end)%string
           | OReverse es =>
-              let r := judge_route inst cm Reverse a0 es (run_reverse QN inst None init es) (obs_route rs "rroute") in
+              let r := judge_route inst cm K Reverse a0 es (obs_route rs "rroute") in
               (piece "rroute" r ++ " sum=None")%string
           | OVia f rv =>
-              let sf := run_forward QN inst None init f in
-              let sr := run_reverse QN inst None init rv in
-              let rf := judge_route inst cm Forward a0 f sf (obs_route rs "fwd") in
-              let rr := judge_route inst cm Reverse a0 rv sr (obs_route rs "rev") in
-              match rf, rr, sf, sr with
-              | inl (af, _), inl _, Ok lf, Ok lr =>
+              let rf := judge_route inst cm K Forward a0 f (obs_route rs "fwd") in
+              let rr := judge_route inst cm K Reverse a0 rv (obs_route rs "rev") in
+              match rf, rr with
+              | inl (af, _), inl _ =>
                   (* the reverse half, re-oriented: accumulation continues from the forward half *)
-                  let ofwd := rget (obs_route rs "fwd") [] in
+                  let ofwd := rget (fst (obs_route rs "fwd")) [] in
                   let av := Build_acc (a_len af) (a_los af) (a_delay af) (a_other af) (last_state ofwd impl_init) in
-                  let rv' := judge_route inst cm Forward av (rev rv) (reorient_reverse_route QN inst lf lr) (obs_route rs "via") in
+                  let rv' := judge_route inst cm K Forward av (rev rv) (obs_route rs "via") in
                   (piece "fwd" rf ++ " " ++ piece "rev" rr ++ " " ++ piece "via" rv' ++ " sum=" ++
                    match rv' with
-                   | inl _ => judge_summary c inst (ofwd ++ rget (obs_route rs "via") []) s
+                   | inl _ => judge_summary c inst (ofwd ++ rget (fst (obs_route rs "via")) []) s
                    | inr _ => "None"
                    end)%string
-              | _, _, _, _ => (piece "fwd" rf ++ " " ++ piece "rev" rr ++ " sum=None")%string
+              | _, _ => (piece "fwd" rf ++ " " ++ piece "rev" rr ++ " sum=None")%string
               end
           | OMulti ess =>
               (join " " (map (fun kes =>
                                let nm := ("r" ++ show_nat (fst kes))%string in
-                               piece nm (judge_route inst cm Forward a0 (snd kes)
-                                                     (run_forward QN inst None init (snd kes)) (obs_route rs nm)))
+                               piece nm (judge_route inst cm K Forward a0 (snd kes) (obs_route rs nm)))
                              (combine (seq 0 (List.length ess)) ess)) ++ " sum=None")%string
           end
       end
